@@ -3,7 +3,7 @@
 extracted items with the given name prefixes equal their values on the tree as reviewed now (run once by hand, commit)."""
 import os, re, sys
 here = os.path.dirname(os.path.dirname(os.path.abspath(__file__)))
-name, doc, prefixes = sys.argv[1], sys.argv[2], sys.argv[3:]
+name, doc, prefixes = sys.argv[1], sys.argv[2].replace('/-', '/ -').replace('-/', '- /'), sys.argv[3:]
 src = open(os.path.join(here, 'lean/Gemato/Extracted.lean')).read()
 out = ['import Gemato.Extracted', '/-', f'  Bridge obligations: {doc}', '  The right-hand sides are the values of the reviewed tree; the left-hand sides are',
        '  re-extracted from /repo on every run.', '-/', 'namespace Gemato.Bridge', '']
